@@ -12,7 +12,8 @@ open WV WV.C20 WV.Gen
 
 /-! ## tie to the source -/
 
-/-- the guards, peer-data accesses, loops, `sorted` calls and `raise`s of the nine modelled functions,
+/-- the guards, peer-data accesses, loops, `sorted` calls, `raise`s and returned expressions of the ten modelled
+    functions (`describe_hint_obj`: the peer-chosen hostname is only ever formatted with `%s`),
     as `tools/extract.py` reads them from the working tree *now*, are exactly the ones the model was
     written against (reverting any guard of 147de0a changes the left-hand side) -/
 theorem guards_agree : Gen.HintGuards.table = expectedGuards := by rfl
